@@ -1,5 +1,5 @@
 # -*- coding: utf-8 -*-
-from .. Error import RINGError
+from .. Error import RINGError, RINGReaderError
 
 
 class Reader(object):
@@ -73,3 +73,10 @@ def Read(text, strict=False):
         return Reader(Parser.parse(text)).Read()
     except RINGError as exc:
         raise exc
+    except RecursionError:
+        # The chain rules of the grammar and the tree readers are recursive:
+        # a chain of a few hundred atoms, constraints or edits exhausts the
+        # interpreter's stack.
+        raise RINGReaderError('Input is nested too deeply to be read: '
+                              'a chain of atoms, constraints or edits is '
+                              'too long')
